@@ -93,7 +93,16 @@ func (e *Exec) doCallCommon(fr *Frame, ins ssa.Instruction, c *ssa.CallCommon, s
 		if p, ok := c.Value.(*ssa.Parameter); ok {
 			key := FuncKey(fr.fn) + "." + p.Name()
 			if ctr := e.P.Spec.Contracts[key]; ctr != nil {
-				return e.applyContract(fr, ins, ctr, ctr.Params, args, resT, st, g, isGo)
+				// the contract of a function-valued parameter may also mention the enclosing function's parameters
+				names := append([]string{}, ctr.Params...)
+				all := append([]Val{}, args...)
+				for i, op := range fr.fn.Params {
+					if i < len(fr.args) {
+						names = append(names, op.Name())
+						all = append(all, fr.args[i])
+					}
+				}
+				return e.applyContract(fr, ins, ctr, names, all, resT, st, g, isGo)
 			}
 		}
 		e.unsupported("dynamic call through %s in %s", c.Value.Name(), FuncKey(fr.fn))
@@ -255,6 +264,22 @@ func (e *Exec) applyContract(fr *Frame, ins ssa.Instruction, ctr *Contract, name
 		env.vars["applied"] = applied
 		env.st = st.clone()
 	}
+	// "before:" site hints: proved (then assumed) in the pre-state, before the callee's preconditions are checked
+	if fr.ctr != nil && fr.ctr.SiteHints != nil {
+		for key, hints := range fr.ctr.SiteHints {
+			if !strings.HasPrefix(key, "before:") || !strings.HasSuffix(site, key[len("before:"):]) {
+				continue
+			}
+			henv := e.envForFunc(fr, env.st, fr.entryState, nil)
+			henv.block = ins.Block()
+			for _, c := range hints {
+				t := e.evalBool(c, henv)
+				e.Out.AddObl(&Obligation{Name: fmt.Sprintf("%s/hint:%s:%s", FuncKey(fr.fn), key, c.Label), Func: FuncKey(fr.fn), Kind: "hint", Label: c.Label, Text: c.Text, Src: c.Src,
+					Formula: Imp(g, t), Inputs: e.obsInputs(fr), Obs: e.lastObs})
+				e.assume(g, t)
+			}
+		}
+	}
 	for _, c := range ctr.Requires {
 		t := e.evalBool(c, env)
 		e.Out.AddObl(&Obligation{Name: fmt.Sprintf("%s/call:%s/pre:%s", FuncKey(fr.fn), site, c.Label), Func: FuncKey(fr.fn), Kind: "pre", Label: c.Label, Text: c.Text, Src: c.Src,
@@ -304,7 +329,7 @@ func (e *Exec) applyContract(fr *Frame, ins ssa.Instruction, ctr *Contract, name
 	// call-site hints of the function under verification (proof decomposition: proved here, then assumed)
 	if fr.ctr != nil && fr.ctr.SiteHints != nil {
 		for key, hints := range fr.ctr.SiteHints {
-			if !strings.HasSuffix(site, key) {
+			if strings.HasPrefix(key, "before:") || !strings.HasSuffix(site, key) {
 				continue
 			}
 			henv := e.envForFunc(fr, post, fr.entryState, nil)
